@@ -122,7 +122,26 @@ Theorem C19_link_local_scope_erased : forall st o p f sc src,
 Proof. exact scope_erased. Qed.
 Print Assumptions C19_link_local_scope_erased.
 
-(* The model's own output passes the monitor for EVERY input. *)
-Theorem C19_model_satisfies_monitor : forall i, monitor i (model i) = true.
+(* Known finding, class 1 (`known i = 1`): the real Sender over real sockets, some datagram
+   of the case is handed to another socket (or to none) than the one the rule designates
+   for the destination QUIC gave, because Sender::poll_send erased its scope id.
+   The model's own output passes the monitor for EVERY input outside that class ... *)
+Theorem C19_model_satisfies_monitor : forall i, known i = 0 -> monitor i (model i) = true.
 Proof. exact model_satisfies_monitor. Qed.
 Print Assumptions C19_model_satisfies_monitor.
+
+(* ... and the class is a real violation of the faithful model: [::1]/128 bound with scope
+   id 1, QUIC sends to fe80::1%1 without a source address, the datagram is dropped. *)
+Theorem C19_known_scope_erasure_witness : exists i, known i = 1 /\ monitor i (model i) = false.
+Proof. exact known_scope_witness. Qed.
+Print Assumptions C19_known_scope_erasure_witness.
+
+(* The class is as narrow as the defect: only an open endpoint, no source address, a
+   link-local (non-IPv4-mapped) IPv6 destination with a non-zero scope id can be in it. *)
+Theorem C19_scope_erasure_confined : forall rs closed dest src,
+  scope_hit rs (closed, dest, src) = true ->
+  closed = false /\ src = None /\
+  exists o p f sc, dest = C18.SV6 o p f sc /\ C18.is_v4_mapped o = false /\
+    link_local (num o 0) = true /\ sc <> 0.
+Proof. exact scope_hit_confined. Qed.
+Print Assumptions C19_scope_erasure_confined.
